@@ -170,6 +170,7 @@ def run():
         rlimit_obligation(rep, ctx)
         users(rep, ctx)
         throttle_obligation(rep, ctx)
+        nested_permit_obligation(rep, ctx)
     except Inconclusive as e:
         o = Obligation("users of the semaphore", "E2 mirsym/z3")
         o.verdict, o.detail = "inconclusive", str(e)
@@ -364,4 +365,82 @@ def throttle_obligation(rep, ctx):
                 shutil.rmtree(d, ignore_errors=True)
         except Inconclusive as ex:
             o.detail += "; native build failed: %s" % str(ex)[:120]
+    rep.add(o)
+
+
+def nested_permit_obligation(rep, ctx):
+    """No hold-and-wait on the open-file semaphore: the hashing task holds exactly one permit of RLIMIT_OPEN_FILES while it calls the
+    stage's hash function, so the hash functions of the stages must not acquire another permit of the same semaphore themselves -
+    with as many running tasks as permits every task would hold one and wait for a second for ever.  E2: the hash closures of
+    group_by_prefix / suffix / contents / group_transformed (helpers of group.rs inlined) contain no acquisition.  Replay: the real
+    binary under a low descriptor limit with many threads must finish."""
+    from obligations.C01 import called as c_called, run_clo, stage
+    prog = ctx.lib
+    engs = []
+    bad, npaths = None, 0
+    for stg in ("group_by_prefix", "group_by_suffix", "group_by_contents", "group_transformed"):
+        sps, seng = stage(prog, stg, engs)
+        p = sps[0]
+        hclo = oblig.closure_value(c_called(p, r"(^|::)rehash$")[0].args[5])
+        if hclo is None:
+            raise Inconclusive("%s: hash closure not identified" % stg)
+        mem_p = mirsym.Path.__new__(mirsym.Path)
+        mem_p.__dict__.update(p.__dict__)
+        mem_p.mem = dict(p.mem)
+        mem_p.mem["argfi"] = mirsym.Lazy("fi", "file::FileInfo")
+        arg = mirsym.Agg("tuple", {0: mirsym.Ref("argfi", (), True), 1: mirsym.Lazy("old_hash", "file::FileHash")})
+        for q in run_clo(prog, hclo, mem_p, seng, args=[arg]):
+            npaths += 1
+            acq = [ev for ev in q.events if ev.kind == "call" and re.search(r"Semaphore::access(_owned)?$", ev.callee)]
+            if acq and bad is None:
+                bad = "%s: the hash function acquires a permit (%s) while the task that calls it already holds one" % (stg, acq[0].callee.split("::")[-1])
+    o = Obligation("stage hash functions acquire no permit of the open-file semaphore themselves (the task holds one: no hold-and-wait)",
+                   "E2 mirsym/z3", sorted({x for e in engs for x in oblig.fnames(e)}), "hash closures of the four stages")
+    o.key = "semaphore:users:no-nested-permit"
+    o.stats = {"paths": npaths, "states": npaths, "transitions": npaths}
+    if bad:
+        o.verdict, o.detail = "violated", bad
+        o.cex = {"reason": bad}
+        # native: low descriptor limit, many threads; a hang (60 s) in any of 4 attempts confirms
+        import native
+        import resource
+        import shutil
+        import subprocess
+        import tempfile
+        from common import scratch_root
+        try:
+            binary = native.build_binary(ctx.src)
+            d = tempfile.mkdtemp(prefix="c19n.", dir=scratch_root())
+            try:
+                for i in range(800):
+                    sub = os.path.join(d, "d%02d" % (i % 20))
+                    os.makedirs(sub, exist_ok=True)
+                    for side in ("a", "b"):
+                        with open(os.path.join(sub, "f%04d%s" % (i, side)), "wb") as f:
+                            f.write((b"%06d" % i) * 3400)
+
+                def low():
+                    resource.setrlimit(resource.RLIMIT_NOFILE, (69, 69))
+                hung = 0
+                for _ in range(4):
+                    try:
+                        subprocess.run([binary, "group", "--threads", "256", d], stdout=subprocess.DEVNULL, stderr=subprocess.DEVNULL, timeout=60, preexec_fn=low)
+                    except subprocess.TimeoutExpired:
+                        hung += 1
+                        break
+                if hung:
+                    o.stats["traces_validated"] = 1
+                    o.cex["native"] = "`fclones group --threads 256` over 1600 files of 20 kB under RLIMIT_NOFILE=69 does not finish within 60 s"
+                    o.detail += "; replayed natively: grouping 1600 files with 256 threads under RLIMIT_NOFILE=69 hangs"
+                else:
+                    o.detail += "; 4 native runs under RLIMIT_NOFILE=69 with 256 threads finished"
+            finally:
+                shutil.rmtree(d, ignore_errors=True)
+        except Inconclusive as ex:
+            o.detail += "; native build failed: %s" % str(ex)[:100]
+    elif npaths == 0:
+        o.verdict, o.detail = "inconclusive", "no hash closure path explored"
+    else:
+        o.verdict = "holds"
+        o.witness = "%d closure paths" % npaths
     rep.add(o)
